@@ -1011,11 +1011,11 @@ def execute(ctx, runner, rng, vv, tv, q):
     # unit of the weights: every weight of the vector times 2**e, e cycling through `exps`
     exps = WEXPS if q else WEXPS + WEXPS_THOROUGH
     SC_BIG = 0.5 if q else 1.0       # share of the generic / zero-mask vectors also run with scaled weights (OnlineVariance path)
-    SC_SMALL = 0.15 if q else 1.0    # the same for the small exhaustive vectors (n <= 3)
-    SC_TRACE = 0.3 if q else 1.0     # share of the scaled runs whose event logs go to TLC
-    SC_PROF = 0.25 if q else 1.0     # share of the generate_profiles vectors also run with scaled weights
+    SC_SMALL = 0.15 if q else 0.5    # the same for the small exhaustive vectors (n <= 3)
+    SC_TRACE = 0.3 if q else 0.5     # share of the scaled runs whose event logs go to TLC
+    SC_PROF = 0.25 if q else 0.5     # share of the generate_profiles vectors also run with scaled weights
     SC_DER = 0.5 if q else 1.0       # share of the generic derived-trace sample sets also run with scaled weights
-    TINY_SHARE = 0.25 if q else 1.0  # share of the zero-mask vectors also run with 2**TINY instead of zero
+    TINY_SHARE = 0.25 if q else 0.5  # share of the zero-mask vectors also run with 2**TINY instead of zero
     nexp = [0]
 
     def next_exp():
